@@ -3,7 +3,10 @@
 (* TLC as the judge of answers recorded from the real code (code -> spec). *)
 (*                                                                         *)
 (* One ndjson line per history:                                            *)
-(*   [tid, par: <<<<parents>>..>>, ts: <<..>>, rank: <<..>>, q: <<query>>] *)
+(*   [tid, par: <<<<parents>>..>>, ts: <<..>>, rank: <<..>>, q: <<query>>, *)
+(*    cg: <<commits covered by the repository's commit-graph file>>]       *)
+(* cg is only checked to be a legal extent (down-closed); no clause looks  *)
+(* at it: the answers must not depend on the accelerator.                  *)
 (* A query records what was asked of the real dulwich function and what it *)
 (* answered (commit numbers; sets as sequences):                           *)
 (*   [k |-> "mb",   a, d: <<..>>, r: <<..>>]     find_merge_base([a] + d)  *)
@@ -101,7 +104,7 @@ Judge(par, ts, rank, A, q) ==
                exact == mono \/ (E = {} /\ q.since = 0)
                mo    == Walk(par, ts, rank, I, E, topo, rev, q.since, q.until, q.max)
            IN  << IF q.g # <<>> /\ exact /\ q.max = 0 /\ SeqSet(q.g[1]) # F THEN "SpecVsGit"
-                  ELSE IF q.g # <<>> /\ topo /\ ~ TopoOK(par, IF rev THEN Reverse(q.g[1]) ELSE q.g[1]) THEN "SpecVsGit"
+                  ELSE IF q.g # <<>> /\ topo /\ ~ TopoOK(par, IF rev THEN RevSeq(q.g[1]) ELSE q.g[1]) THEN "SpecVsGit"
                   \* date order is unambiguous when the timestamps in sight are pairwise different: newest
                   \* first from a priority queue; with excludes only compared for monotone clocks
                   ELSE IF q.g # <<>> /\ ~ topo /\ plain /\ (E = {} \/ mono)
@@ -111,8 +114,8 @@ Judge(par, ts, rank, A, q) ==
                   ELSE IF E = {} /\ plain /\ R # Reach(A, I) THEN "WalkComplete"
                   ELSE IF E # {} /\ plain /\ mono /\ R # W THEN "WalkExcludes"
                   ELSE IF exact /\ q.max = 0 /\ R # F THEN "WalkSinceUntil"
-                  ELSE IF topo /\ ~ TopoOK(par, IF rev THEN Reverse(q.r) ELSE q.r) THEN "TopoOrder"
-                  ELSE IF rev /\ q.r # Reverse(q.base) THEN "WalkReverse"
+                  ELSE IF topo /\ ~ TopoOK(par, IF rev THEN RevSeq(q.r) ELSE q.r) THEN "TopoOrder"
+                  ELSE IF rev /\ q.r # RevSeq(q.base) THEN "WalkReverse"
                   ELSE IF ~ rev /\ q.max > 0 /\ ~ topo /\ q.r # Prefix(q.base, q.max) THEN "WalkMaxEntries"
                   ELSE IF ~ rev /\ q.max > 0 /\ Len(q.r) # Min(q.max, Len(q.base)) THEN "WalkMaxEntries"
                   ELSE "ok",
@@ -127,7 +130,8 @@ JudgeAll(T) ==
         A   == Anc(par)
         V   == [k \in 1..Len(T.q) |-> Judge(par, T.ts, T.rank, A, T.q[k])]
         bad == {k \in 1..Len(T.q) : V[k][1] # "ok" \/ V[k][4] = 0}
-    IN  /\ \A k \in bad : PrintT(<<"V", T.tid, k, V[k][1], V[k][2], V[k][3], V[k][4]>>)
+    IN  /\ Assert(DownClosed(par, SeqSet(T.cg)), <<"commit-graph extent is not down-closed", T.tid>>)
+        /\ \A k \in bad : PrintT(<<"V", T.tid, k, V[k][1], V[k][2], V[k][3], V[k][4]>>)
         /\ PrintT(<<"T", T.tid, Len(T.q), Cardinality(bad)>>)
 
 TraceInit == tid \in 1..Len(Traces) /\ stage = 0
